@@ -20,3 +20,6 @@ func BubbleSleep(d time.Duration) {}
 
 // Stragglers is only meaningful inside a bubble.
 func Stragglers(pkg string) (int, string) { return 0, "" }
+
+// Quiesce is only meaningful inside a bubble.
+func Quiesce() {}
